@@ -301,8 +301,65 @@ def gen_borrow():
     return progs
 
 
+# references obtained FROM entries must not outlive the entry's own borrow / consumption
+OCC_MAP = "let mut c = mk_map(); c.insert(1, String::new()); let mut e = match c.entry(1) { hashbrown::hash_map::Entry::Occupied(o) => o, _ => return };"
+OCC_REF = "let mut c = mk_map(); c.insert(1, String::new()); let mut e = match c.entry_ref(&1) { hashbrown::hash_map::EntryRef::Occupied(o) => o, _ => return };"
+OCC_RAW = "let mut c = mk_map(); c.insert(1, String::new()); let mut e = match c.raw_entry_mut().from_key(&1) { hashbrown::hash_map::RawEntryMut::Occupied(o) => o, _ => return };"
+OCC_RUSTC = "let mut c = mk_map(); c.insert(1, String::new()); let mut e = match c.rustc_entry(1) { hashbrown::hash_map::RustcEntry::Occupied(o) => o, _ => return };"
+OCC_SET = "let mut c = mk_set(); c.insert(1); let mut e = match c.entry(1) { hashbrown::hash_set::Entry::Occupied(o) => o, _ => return };"
+OCC_TABLE = "let mut c = mk_table(); c.insert_unique(1, 1, h); let mut e = match c.find_entry(1, |x| *x == 1) { Ok(o) => o, _ => return };"
+VAC_MAP = "let mut c = mk_map(); let mut e = match c.entry(1) { hashbrown::hash_map::Entry::Vacant(v) => v, _ => return };"
+VAC_RUSTC = "let mut c = mk_map(); let mut e = match c.rustc_entry(1) { hashbrown::hash_map::RustcEntry::Vacant(v) => v, _ => return };"
+VAC_SET = "let mut c = mk_set(); let mut e = match c.entry(1) { hashbrown::hash_set::Entry::Vacant(v) => v, _ => return };"
+ENUM_MAP = "let mut c = mk_map(); c.insert(1, String::new()); let mut e = c.entry(1);"
+ERR_MAP = "let mut c = mk_map(); c.insert(1, String::new()); let mut e = match c.try_insert(1, String::new()) { Err(x) => x, _ => return };"
+ENTRY_B = [
+    ("hash_map::OccupiedEntry::get_mut then remove", OCC_MAP, "e.get_mut()", "let gone = e.remove();"),
+    ("hash_map::OccupiedEntry::get then insert", OCC_MAP, "e.get()", "let old = e.insert(String::new());"),
+    ("hash_map::OccupiedEntry::key then remove_entry", OCC_MAP, "e.key()", "let gone = e.remove_entry();"),
+    ("hash_map::OccupiedEntry::get_mut then into_mut", OCC_MAP, "e.get_mut()", "let m = e.into_mut();"),
+    ("hash_map::OccupiedEntry (entry_ref)::get_mut then remove", OCC_REF, "e.get_mut()", "let gone = e.remove();"),
+    ("hash_map::RawOccupiedEntryMut::get_mut then remove", OCC_RAW, "e.get_mut()", "let gone = e.remove();"),
+    ("hash_map::RawOccupiedEntryMut::key_mut then insert_key", OCC_RAW, "e.key_mut()", "let old = e.insert_key(1);"),
+    ("hash_map::RawOccupiedEntryMut::get_key_value_mut then remove_entry", OCC_RAW, "e.get_key_value_mut()", "let gone = e.remove_entry();"),
+    ("hash_map::RawOccupiedEntryMut::get then insert", OCC_RAW, "e.get()", "let old = e.insert(String::new());"),
+    ("hash_map::RustcOccupiedEntry::get_mut then remove", OCC_RUSTC, "e.get_mut()", "let gone = e.remove();"),
+    ("hash_map::RustcOccupiedEntry::get then insert", OCC_RUSTC, "e.get()", "let old = e.insert(String::new());"),
+    ("hash_set::OccupiedEntry::get then remove", OCC_SET, "e.get()", "let gone = e.remove();"),
+    ("hash_table::OccupiedEntry::get_mut then remove", OCC_TABLE, "e.get_mut()", "let gone = e.remove();"),
+    ("hash_table::OccupiedEntry::get then into_mut", OCC_TABLE, "e.get()", "let m = e.into_mut();"),
+    ("hash_map::VacantEntry::key then insert", VAC_MAP, "e.key()", "let v = e.insert(String::new());"),
+    ("hash_map::RustcVacantEntry::key then insert", VAC_RUSTC, "e.key()", "let v = e.insert(String::new());"),
+    ("hash_set::VacantEntry::get then insert", VAC_SET, "e.get()", "let o = e.insert();"),
+    ("hash_map::Entry::key then or_default", ENUM_MAP, "e.key()", "let v = e.or_default();"),
+    ("hash_map::OccupiedError.entry.get_mut then entry.remove", ERR_MAP, "e.entry.get_mut()", "let gone = e.entry.remove();"),
+]
+ENTRY_TWO = [
+    ("hash_map::OccupiedEntry::get_mut twice", OCC_MAP, "e.get_mut()", "e.get_mut()"),
+    ("hash_map::RawOccupiedEntryMut::get_mut and key_mut", OCC_RAW, "e.get_mut()", "e.key_mut()"),
+    ("hash_map::RustcOccupiedEntry::get_mut twice", OCC_RUSTC, "e.get_mut()", "e.get_mut()"),
+    ("hash_table::OccupiedEntry::get_mut twice", OCC_TABLE, "e.get_mut()", "e.get_mut()"),
+    ("hash_map::OccupiedEntry::get_mut and get", OCC_MAP, "e.get_mut()", "e.get()"),
+]
+
+
+def gen_entry_borrow():
+    progs = []
+    for (desc, setup, borrow, kill) in ENTRY_B:
+        progs.append(dict(cat="reject", sig="", body=f"{setup} let r = {borrow}; {kill} use_it(&r);", kind="borrow",
+                          desc=f"{desc}: reference obtained from the entry used after the entry is consumed or mutated"))
+        progs.append(dict(cat="accept", sig="", body=f"{setup} let r = {borrow}; use_it(&r); {kill}", kind="borrow-twin",
+                          desc=f"{desc}: control twin (last use before)"))
+    for (desc, setup, b1, b2) in ENTRY_TWO:
+        progs.append(dict(cat="reject", sig="", body=f"{setup} let a = {b1}; let b = {b2}; use_it(&a); use_it(&b);", kind="borrow",
+                          desc=f"{desc}: both results alive at once"))
+        progs.append(dict(cat="accept", sig="", body=f"{setup} let a = {b1}; use_it(&a); let b = {b2}; use_it(&b);", kind="borrow-twin",
+                          desc=f"{desc}: control twin (sequential)"))
+    return progs
+
+
 def main():
-    progs = gen_auto() + gen_variance() + gen_borrow()
+    progs = gen_auto() + gen_variance() + gen_borrow() + gen_entry_borrow()
     files = {"accept": [PRELUDE], "accept_auto": [PRELUDE], "reject_auto": [PRELUDE], "reject_borrow": [PRELUDE], "maybe": [PRELUDE]}
     index = {}
     counters = {k: 0 for k in files}
